@@ -17,6 +17,7 @@ struct Observed {
 	uint64_t content = 0;
 	std::vector<uint32_t> positions;
 	std::set<std::string> scan;        // scan:* tags as a set (add == copy normalised)
+	std::set<std::string> copies;      // files the scan took for copies (inherited hashes)
 	std::string counts;                // summary:error_file / error_io / error_data
 	uint64_t data = 0;
 };
@@ -33,7 +34,7 @@ Observed observe(Exec& x, const CmdResult& r)
 		if (t.f.size() >= 4 && t.f[0] == "scan") {
 			std::string kind = t.f[1];
 			// a copy whose source is itself new in the same scan is timing dependent by design: add == copy
-			if (kind == "copy") o.scan.insert("add:" + t.f[t.f.size() - 2] + ":" + t.f[t.f.size() - 1]);
+			if (kind == "copy") { o.scan.insert("add:" + t.f[t.f.size() - 2] + ":" + t.f[t.f.size() - 1]); o.copies.insert(t.f[t.f.size() - 2] + ":" + t.f[t.f.size() - 1]); }
 			else if (kind == "add") o.scan.insert("add:" + t.f[2] + ":" + t.f[3]);
 			else o.scan.insert(t.raw);
 		}
@@ -148,7 +149,9 @@ static void op_c13_diff(Exec& x, const Json& op, int)
 			for (auto& kv : got.parity) if (want.parity[kv.first] != kv.second) d += kv.first + " ";
 			x.violation("C13", "parity-differs", when + ": parity files differ from the single-threaded result: " + d, focus);
 		}
-		if (got.content != want.content) x.violation("C13", "content-differs", when + ": content file differs from the single-threaded result", focus);
+		if (got.content != want.content)
+			x.violation("C13", "content-differs", when + ": content file differs from the single-threaded result"
+				+ (got.copies != want.copies ? " [a new file was taken for a copy in one run and for a plain new file in the other: copy detection across disks depends on the order in which the scan threads meet the source]" : ""), focus);
 		if (got.scan != want.scan) {
 			std::string d;
 			for (auto& e : got.scan) if (!want.scan.count(e)) d += "+" + e + " ";
